@@ -3,7 +3,7 @@
    Proofs/C17_rouchon.v, Proofs/C17_cache.v. *)
 From mathcomp Require Import all_ssreflect all_algebra.
 From QV Require Import Model.C17_sde Model.C17_sys Proofs.C17_sde Proofs.C17_lindblad
-                       Proofs.C17_sys Proofs.C17_rouchon Proofs.C17_cache.
+                       Proofs.C17_sys Proofs.C17_rouchon Proofs.C17_cache Proofs.C17_sse_norm.
 Set Implicit Arguments.
 Unset Strict Implicit.
 Unset Printing Implicit Defensive.
@@ -26,6 +26,35 @@ Theorem C17_sse_step_determined_by_increments :
                        = platen_step A S meas psi dt sdt isdt4 dW2).
 Proof. intros K V A B re H sc_ops meas psi dt dW1 dW2 Hd. now apply sse_determined. Qed.
 Print Assumptions C17_sse_step_determined_by_increments.
+
+(* The closed-system (wave-function) terms keep the norm in the mean: with
+   <x, y> = tr(x^dag y) (= x^dag y for kets), drift a and diffusions b_c of
+   StochasticClosedSystem, the Ito drift of <psi, psi>,
+       <psi, a(psi)> + <a(psi), psi> + sum_c <b_c(psi), b_c(psi)>,
+   is identically zero - for every psi (normalised or not), every Hermitian
+   H, every list of monitored operators, every dimension, over any
+   commutative unit ring with an involutive conjugation, i with conj i = -i
+   and a real 1/2.  (The density-matrix counterpart is trace preservation,
+   Props/C17_sde.v.) *)
+Theorem C17_sse_norm_drift_vanishes :
+  forall (R : comUnitRingType) (conj : {rmorphism R -> R}), involutive conj ->
+  forall (imag halfr : R), conj imag = - imag -> conj halfr = halfr -> halfr + halfr = 1 ->
+  forall (n : nat) (H : 'M[R]_n) (cs : seq 'M[R]_n) (X : 'M[R]_n),
+    herm conj H ->
+    let B := mc_malg conj imag halfr n in
+    ip conj X (closed_drift B H cs X) + ip conj (closed_drift B H cs X) X
+    + \sum_(c <- cs) ip conj (closed_diff B c X) (closed_diff B c X) = 0.
+Proof. move=> R conj cK imag halfr ci ch h2 n H cs X HH B. exact: norm_drift_zero. Qed.
+Print Assumptions C17_sse_norm_drift_vanishes.
+
+Example C17_nonvacuous_sse_norm (R : fieldType) (conj : {rmorphism R -> R}) :
+  (2%:R : R) != 0 -> herm conj (1%:M : 'M[R]_3) /\ (2%:R^-1 + 2%:R^-1 = 1 :> R)
+                     /\ conj (2%:R^-1) = 2%:R^-1.
+Proof.
+  move=> H2. split; first by rewrite /herm /dagger trmx1 map_mx1.
+  split; first by rewrite -mulr2n -[_ *+ 2]mulr_natr mulVf.
+  by rewrite fmorphV rmorph_nat.
+Qed.
 
 (* Rouchon's step (density matrix: M rho M^dag + sum c rho c^dag dt divided by
    its trace; wave function: M psi) is determined by the state and the
